@@ -34,24 +34,24 @@ Definition step_good (f : req) (s : sk) : Prop :=
 Ltac unfold_all :=
   unfold step_good, guard, g_inst_depot_dosed, g_inst_not_stale, g_seq_has_depot, g_seq_depot_dosed, g_zo_depot_dosed,
     g_fo_no_chain, g_fo_seq_chain, g_fo_keeps_lag, g_no_param_clash, g_transit_no_lag, g_no_single_transit,
-    g_periph_le9, g_rem_periph_rates, valid, step, step_transits, request_detected, others_unchanged,
-    refusal_documented, with_abs, with_tr, with_per, with_el, with_lagb, canon_transits, canon_abs, s_depot,
+    g_periph_le9, g_rem_periph_rates, g_keeps_bio, valid, step, step_transits, request_detected, others_unchanged,
+    refusal_documented, with_abs, with_tr, with_per, with_el, with_lagb, with_biob, canon_transits, canon_abs, s_depot,
     drop_depot_abs in *;
-  cbn [s_abs s_transits s_periph s_elim s_lag s_mat s_popmdt s_krates s_elq] in *.
+  cbn [s_abs s_transits s_periph s_elim s_lag s_mat s_popmdt s_krates s_elq s_bio] in *.
 
 Lemma step_ok_abs f s : is_abs f = true -> valid s = true -> guard f s = true -> step_good f s.
 Proof.
-  intros Hf Hv Hg. destruct s as [a tr per el lag mat pm kr eq].
+  intros Hf Hv Hg. destruct s as [a tr per el lag mat pm kr eq bio].
   unfold step_good, guard, valid in *.
-  destruct f; try discriminate Hf; destruct a; destruct tr as [|[|tr]]; destruct lag;
+  destruct f; try discriminate Hf; destruct a; destruct tr as [|[|tr]]; destruct lag; destruct bio;
     cbn in *; try discriminate; rewrite ?Nat.eqb_refl, ?elk_eqb_refl; repeat split; try reflexivity.
 Qed.
 
 Lemma step_ok_simple f s :
-  match f with ElFO | ElZO | ElMM | ElMix | LagOn | LagOff | PerAdd => True | _ => False end ->
+  match f with ElFO | ElZO | ElMM | ElMix | LagOn | LagOff | BioOn | BioOff | PerAdd => True | _ => False end ->
   valid s = true -> guard f s = true -> step_good f s.
 Proof.
-  intros Hf Hv Hg. destruct s as [a tr per el lag mat pm kr eq].
+  intros Hf Hv Hg. destruct s as [a tr per el lag mat pm kr eq bio].
   unfold step_good, valid in *.
   destruct f; try contradiction; cbn in *;
     rewrite ?Nat.eqb_refl, ?elk_eqb_refl, ?absk_eqb_refl, ?eqb_reflx; repeat split; try reflexivity; try exact Hv.
@@ -61,18 +61,18 @@ Lemma step_ok_per f s :
   match f with PerRem | PerSet _ => True | _ => False end ->
   valid s = true -> guard f s = true -> step_good f s.
 Proof.
-  intros Hf Hv Hg. destruct s as [a tr per el lag mat pm kr eq].
+  intros Hf Hv Hg. destruct s as [a tr per el lag mat pm kr eq bio].
   destruct f; try contradiction; unfold_all; clear Hf.
-  - destruct kr, eq; cbn [andb orb negb] in *; solve_step.
-  - destruct kr, eq; cbn [andb orb negb] in *; solve_step.
+  - destruct kr, eq, bio; cbn [andb orb negb] in *; solve_step.
+  - destruct kr, eq, bio; cbn [andb orb negb] in *; solve_step.
 Qed.
 
 Lemma step_ok_transits n keep s :
   valid s = true -> guard (Transits n keep) s = true -> step_good (Transits n keep) s.
 Proof.
-  intros Hv Hg. destruct s as [a tr per el lag mat pm kr eq].
+  intros Hv Hg. destruct s as [a tr per el lag mat pm kr eq bio].
   unfold_all.
-  destruct a; destruct keep; destruct lag; destruct mat; destruct pm;
+  destruct a; destruct keep; destruct lag; destruct mat; destruct pm; destruct bio;
     cbn [andb orb negb absk_eqb] in *; try discriminate;
     destruct tr as [|[|tr]]; destruct n as [|[|n]]; scbn; try discriminate; solve_step.
 Qed.
